@@ -47,9 +47,33 @@ def run(ctx):
     # ---- R3.1 ----------------------------------------------------------------------
     tl = prog.fn("trace_load", "src/emu/trace.c")
     cs = prog.fn("cmp_streams", "src/emu/trace.c")
-    ok = any(n["k"] == "CallExpr" and n.get("callee") == "strcmp" and
-             all("relpath" in cs.src(a) for a in n["args"]) for n in cs.nodes)
-    ctx.check(ok, "R3.1", "cmp_streams:by-relpath", cs.loc(), "cmp_streams does not compare the relative paths")
+    # evaluated on concrete relative paths (strcmp folded when both strings are known)
+    def s_strcmp_c(ex_, st_, a, f, e):
+        def sv(x):
+            if x[0] == "str":
+                return x[1]
+            if x[0] == "ptr":
+                path = x[2][:-1] if x[2] and x[2][-1] == 0 else x[2]
+                v = st_.store.get((x[1], path))
+                return v[1] if v and v[0] == "str" else None
+            return None
+        x, y = sv(a[0]), sv(a[1])
+        if x is None or y is None:
+            return None
+        return [(INT((x > y) - (x < y)), {})]
+    for (pa_, pb_) in (("loom.a/proc.1/thread.1", "loom.a/proc.1/thread.2"), ("loom.b/proc.1/thread.1", "loom.a/proc.9/thread.9"),
+                       ("loom.a/proc.1/thread.1", "loom.a/proc.1/thread.1"), ("loom.a/proc.1/thread.10", "loom.a/proc.1/thread.1"),
+                       ("a", "ab")):
+        exc = absint.Explorer(prog, effects=eff, loop_bound=40, summaries={"strcmp": s_strcmp_c})
+        outs_c = exc.run(cs, [PTR("SA"), PTR("SB")], {("SA", F("stream", "relpath")): ("str", pa_),
+                                                     ("SB", F("stream", "relpath")): ("str", pb_)})
+        rets = {o.ret for o in outs_c if o.kind == "ret"}
+        want = (pa_ > pb_) - (pa_ < pb_)
+        good = len(rets) == 1 and list(rets)[0][0] == "int" and \
+            ((list(rets)[0][1] > 0) - (list(rets)[0][1] < 0)) == want
+        ctx.check(good, "R3.1", "cmp_streams:%s-vs-%s" % (pa_, pb_), cs.loc(),
+                  "cmp_streams gives %s for relative paths '%s' and '%s'; the stream order must be the lexicographic order "
+                  "of the relative paths" % (sorted(rets, key=str), pa_, pb_))
     ex = absint.Explorer(prog, effects=eff, auto_inline=False, loop_bound=2, summaries={
         "cmp_streams": lambda ex_, st, a, f, e: [(INT(0), {("SORTED", ()): INT(1)})],
         "nftw": lambda ex_, st, a, f, e: [(INT(0), {("WALKED", ()): INT(1), ("SORTED", ()): INT(0)}), (INT(-1), {})],
